@@ -9,6 +9,8 @@ let handlers : (t -> (int * string list) option) list = [
   Cmd_cache.handle;
   Cmd_lister.handle;
   Cmd_controller.handle;
+  Cmd_fsub.handle;
+  Cmd_pipeline.handle;
 ]
 
 let () =
